@@ -42,6 +42,7 @@ class Preprocessor {
     std::vector<std::string> warnings_;
     std::string current_file_;
     int current_line_;
+    size_t expansion_budget_ = 0; // マクロ展開量の残り（1ファイルあたりの上限）
 
     // ディレクティブ処理
     bool processDirective(const std::string &line, std::string &output,
